@@ -322,6 +322,8 @@ def gen_schema(rng, depth, refs=(), allow=("allOf", "anyOf", "oneOf", "not", "if
             d["then"] = gen_schema(rng, depth - 1, refs, allow)
         if rng.random() < 0.6:
             d["else"] = gen_schema(rng, depth - 1, refs, allow)
+        if len(d.keys() & {"then", "else"}) and rng.random() < 0.15:
+            del d["if"]                                  # 'then' / 'else' without 'if': legal, and ignored
     elif k < 0.66 and "depreq" in allow:
         d["dependentRequired"] = {rng.choice(NAMES): rng.sample(NAMES, rng.choice([1, 2]))}
     elif k < 0.8 and refs and "ref" in allow:
@@ -475,6 +477,38 @@ def _scalar_for(rng, group):
 
 def _small(rng):
     return _scalar_for(rng, rng.choice(["number", "string", "enum", "type"]))
+
+
+
+def gen_ref_siblings(rng):
+    """the same local reference at two places below properties / items / prefixItems / additionalProperties, once alone
+    and once next to sibling keywords, in either order; also the recursive reference '#'
+    (what is worked out for one use of a reference must not be served for the other)"""
+    if rng.random() < 0.3:
+        sib = rng.choice([{"required": ["left"]}, {"required": ["right"]}, {"minProperties": 1}, {"type": "object"}])
+        strong, weak = dict({"$ref": "#"}, **sib), {"$ref": "#"}
+        pair = [("left", weak), ("right", strong)] if rng.random() < 0.5 else [("left", strong), ("right", weak)]
+        doc = {"type": "object", "properties": dict(pair)}
+        return doc
+    base = rng.choice([{"type": "number"}, {"type": "integer"}, {"type": "string"}, {"type": ["number", "string"]}, {}])
+    if base.get("type") == "string":
+        extra = rng.choice([{"minLength": 3}, {"maxLength": 2}, {"enum": ["a", "abcd"]}])
+    else:
+        extra = rng.choice([{"minimum": 10}, {"maximum": 4}, {"minimum": 2, "maximum": 6}, {"type": "number"}])
+    strong, weak = dict({"$ref": "#/$defs/D"}, **extra), {"$ref": "#/$defs/D"}
+    holder = rng.choice(["props", "props", "items", "prefix", "addl"])
+    first, second = (weak, strong) if rng.random() < 0.5 else (strong, weak)
+    if holder == "props":
+        names = rng.sample(NAMES, 2)
+        doc = {"type": "object", "properties": {names[0]: first, names[1]: second}}
+    elif holder == "items":
+        doc = {"type": "object", "properties": {"a": {"type": "array", "items": first}, "b": second}}
+    elif holder == "prefix":
+        doc = {"type": "array", "prefixItems": [first, second]}
+    else:
+        doc = {"type": "object", "properties": {"a": first}, "additionalProperties": second}
+    doc["$defs"] = {"D": base}
+    return doc
 
 
 def gen_group_schema(rng, group):
